@@ -3,6 +3,7 @@
    Models: XPathSem.v - an executable REFERENCE semantics written from the W3C recommendation ([spec_flags]) with one
    switch per construct in which src/xpath.c departs from it ([impl_flags] = as coded); XPathConv.v - the conversion
    kernels, recommendation and as coded. Proofs: XPathSemP.v, XPathConvP.v; concrete witnesses: XPathExamples.v.
+   State of the code: /repo with the XPath fixes 61e2388 .. f6e5fb8 (their switches are removed from the model).
    The 10 kLoC evaluator of xpath.c is not transcribed: it is tied to [eval_top impl_flags] by the correspondence run
    (tools/props/comps_xpath.py), and every case in which [eval_top impl_flags] differs from [eval_top spec_flags] is a
    listed deviation of libyang (known_findings.d/xpath.json). *)
@@ -12,38 +13,31 @@ Local Open Scope N_scope.
 
 (* Node-sets contain no duplicates and are in document order: every node-set value computed by the evaluator - any
    expression (all 13 axes, predicates, filters, unions, functions), any context, any tree whose node ids are the
-   pre-order positions, any setting of the as-coded switches except the one that models the duplicate insertion of
-   moveto_node_alldesc_child() - has strictly increasing document-order keys. *)
+   pre-order positions, and ANY setting of the as-coded switches: in particular for the semantics AS CODED
+   ([impl_flags]) and for the reference semantics ([spec_flags]) - has strictly increasing document-order keys.
+   (Until /repo commit 31c0198 the code inserted a node twice on '//' steps from nested context nodes; the statement
+   then needed the hypothesis that this switch is off and was refuted for the code; the former witness is the
+   regression example XPathExamples.alldesc_duplicate_regression.) *)
 Theorem C08_eval_nodeset_sorted_nodup :
-  forall fl t, wf_tree t -> f_alldup fl = false ->
+  forall fl t, wf_tree t ->
   forall e cx l, eval fl t cx e = Ok (VSet l) -> sorted_items l = true.
 Proof. exact eval_nodeset_sorted_nodup. Qed.
 Print Assumptions C08_eval_nodeset_sorted_nodup.
 
 Theorem C08_eval_nodeset_nodup :
-  forall fl t, wf_tree t -> f_alldup fl = false ->
+  forall fl t, wf_tree t ->
   forall e cx l, eval fl t cx e = Ok (VSet l) -> NoDup (map item_key l).
 Proof. exact eval_nodeset_nodup. Qed.
 Print Assumptions C08_eval_nodeset_nodup.
 
-(* ... and the statement is FALSE for the code as it is (switch f_alldup on): '//' steps from nested context nodes
-   insert a node twice. Witness (/a:c/a:l1[2] | /a:c/a:l1[2]/a:in)//a:x on the example tree: the set holds x twice. *)
-Definition dup_witness : expr :=
-  EStep (EUnion (chp (ch ERoot n_c) n_l1 (num [50])) (ch (chp (ch ERoot n_c) n_l1 (num [50])) n_in))
-        true AxChild (nm n_x) PNil.
-
-Theorem C08_nodeset_nodup_refuted :
-  exists e l, eval_top impl_flags ex_tree IRoot e = Ok (VSet l) /\ ~ NoDup (map item_key l).
+(* the two instances the property text is about *)
+Theorem C08_eval_nodeset_nodup_as_coded :
+  forall t, wf_tree t -> forall e c l, eval_top impl_flags t c e = Ok (VSet l) -> NoDup (map item_key l).
 Proof.
-  exists dup_witness.
-  exists (match eval_top impl_flags ex_tree IRoot dup_witness with Ok (VSet l) => l | _ => [] end).
-  split.
-  - vm_compute. reflexivity.
-  - assert (Hk : map item_key (match eval_top impl_flags ex_tree IRoot dup_witness with Ok (VSet l) => l | _ => [] end)
-                 = [25; 25]) by (vm_compute; reflexivity).
-    rewrite Hk. intro H. inversion H as [|x l Hn Hd]. apply Hn. left. reflexivity.
+  intros t Hwf e c l H. unfold eval_top in H.
+  destruct (f_nsaxis impl_flags && uses_ns e); [discriminate|]. eapply eval_nodeset_nodup; eauto.
 Qed.
-Print Assumptions C08_nodeset_nodup_refuted.
+Print Assumptions C08_eval_nodeset_nodup_as_coded.
 
 (* a | b = b | a  (same nodes) *)
 Theorem C08_union_comm :
@@ -99,12 +93,12 @@ Theorem C08_fastpath_equiv :
 Proof. exact fastpath_equiv. Qed.
 Print Assumptions C08_fastpath_equiv.
 
-(* the lookup as coded agrees only for string right-hand sides: with a number it compares '5.0' with '5' *)
-Theorem C08_fastpath_nonstring_rhs_refuted :
+(* the key predicate with a number: as coded (since /repo commit 434e77e evaluated generically) and by the
+   recommendation the instance with key '5.0' is selected by [a:k=5] *)
+Example C08_fastpath_nonstring_rhs_regression :
   exists e, observe (eval_top spec_flags ex_tree IRoot e) = ONodes [7] /\
-            observe (eval_top impl_flags ex_tree IRoot e) = ONodes [].
-Proof. eexists. exact fastpath_nonstring_rhs_refuted. Qed.
-Print Assumptions C08_fastpath_nonstring_rhs_refuted.
+            observe (eval_top impl_flags ex_tree IRoot e) = ONodes [7].
+Proof. eexists. exact fastpath_nonstring_rhs_regression. Qed.
 
 (* conversions: strtold() = XPath number() on plain numerals (optional minus, digits, points) *)
 Theorem C08_s2n_impl_eq_spec_plain :
@@ -131,19 +125,20 @@ Theorem C08_n2s_refuted :
 Proof. exact n2s_quarter_refuted. Qed.
 Print Assumptions C08_n2s_refuted.
 
-(* floor(): correct for non-negative numbers, truncation towards zero for negative ones *)
-Theorem C08_floor_impl_eq_spec_nonneg :
-  forall m, Qle 0 m -> (Qfloor m <= ll_max)%Z ->
-  exists r, impl_floor (XFin false m) = Some r /\ x_eq r (spec_floor (XFin false m)) = true.
-Proof. exact floor_impl_eq_spec_nonneg. Qed.
-Print Assumptions C08_floor_impl_eq_spec_nonneg.
+(* floor() as coded (floorl() of the signed value since /repo commit 0327904) is the floor of the recommendation for
+   ALL numbers (well formed: the magnitude is not negative): negative and positive, integral or not, both zeros,
+   infinities, NaN. [x_same]: numerically equal, or both NaN. *)
+Theorem C08_floor_impl_eq_spec :
+  forall x, x_wf x -> x_same (impl_floor x) (spec_floor x) = true.
+Proof. exact floor_impl_eq_spec. Qed.
+Print Assumptions C08_floor_impl_eq_spec.
 
-Theorem C08_floor_ceiling_refuted :
-  (impl_floor (XFin true (3 # 2)) = Some (x_of_Z (-1)) /\ spec_floor (XFin true (3 # 2)) = XFin true (inject_Z 2)) /\
-  (impl_ceiling (XFin true (3 # 2)) = x_of_Z 0 /\ spec_ceiling (XFin true (3 # 2)) = XFin true (inject_Z 1)) /\
-  (impl_floor XNaN = None /\ spec_floor XNaN = XNaN).
-Proof. exact (conj floor_negative_refuted (conj ceiling_negative_refuted floor_nan_refuted)). Qed.
-Print Assumptions C08_floor_ceiling_refuted.
+(* former refutation witnesses: floor(-1.5) = -2, ceiling(-1.5) = -1, floor(NaN) = NaN *)
+Example C08_floor_ceiling_regression :
+  impl_floor (XFin true (3 # 2)) = x_of_Z (-2) /\ spec_floor (XFin true (3 # 2)) = XFin true (inject_Z 2) /\
+  impl_ceiling (XFin true (3 # 2)) = x_of_Z (-1) /\ spec_ceiling (XFin true (3 # 2)) = XFin true (inject_Z 1) /\
+  impl_floor XNaN = XNaN /\ spec_floor XNaN = XNaN.
+Proof. repeat split; vm_compute; reflexivity. Qed.
 
 (* string-length(): bytes = characters for ASCII only *)
 Theorem C08_string_length_ascii :
@@ -154,7 +149,7 @@ Print Assumptions C08_string_length_ascii.
 (* the hypotheses are satisfiable by a non-trivial value: the example tree is well formed and /a:c/a:l1 selects two
    list instances, in the reference semantics and as coded *)
 Example C08_hypotheses_satisfiable :
-  wf_tree ex_tree /\ f_alldup spec_flags = false /\
+  wf_tree ex_tree /\
   observe (eval_top spec_flags ex_tree IRoot p_c_l1) = ONodes [7; 17] /\
   observe (eval_top impl_flags ex_tree IRoot p_c_l1) = ONodes [7; 17].
-Proof. split; [exact ex_tree_wf|]. split; [reflexivity|]. exact ex_path. Qed.
+Proof. split; [exact ex_tree_wf|]. exact ex_path. Qed.
